@@ -394,6 +394,7 @@ func init() {
 		"vAssert":         vAssert,
 		"vReach":          func(c *icall) { c.e.res.reach(c.strArg(0)); c.ret(nil) },
 		"vKnown":          vKnown,
+		"vWatch":          vWatch,
 		"vExpectPanic":    vExpectPanic,
 		"vObserve":        vObserve,
 		"vQuiescent":      vQuiescent,
@@ -535,6 +536,14 @@ func vKnown(c *icall) {
 		c.st.known[id] = true
 	}
 	c.ret(BoolC(v))
+}
+
+// vWatch(name, p): see State.watches.
+func vWatch(c *icall) {
+	if p, ok := c.args[1].(Ptr); ok && !p.Obj.IsNil() {
+		c.st.watches = append(c.st.watches, watch{name: c.strArg(0), p: p})
+	}
+	c.ret(nil)
 }
 
 func vExpectPanic(c *icall) {
